@@ -17,6 +17,7 @@ LAZY = ['take', 'first', 'isEmpty']
 
 class C04(Prop):
     id = 'C04'
+    extracted = True      # statement-level kernels regenerated from the current source (harness/extract_m.py, Extracted/EquivC04.lean)
     quick_cases = 1500
     thorough_cases = 20000
     quick_budget_s = 45
